@@ -99,7 +99,7 @@ impl B {
     }
 }
 
-pub const ALL_PROPS: &[&str] = &["C01", "C02", "C03", "C04", "C05", "C06", "C07", "C08", "C09", "C10", "C14", "C15", "C17", "C18", "C20"];
+pub const ALL_PROPS: &[&str] = &["C01", "C02", "C03", "C04", "C05", "C06", "C07", "C08", "C09", "C10", "C11", "C12", "C14", "C15", "C17", "C18", "C20"];
 
 /// class for the output-elision differential (C04): extended class plus the eliding forms
 fn k04() -> en::Class {
@@ -125,6 +125,10 @@ fn wrap_map_err(g: G) -> G {
 }
 fn wrap_memo(g: G) -> G {
     Memo(b(g))
+}
+
+fn rec_unit(name: &'static str, tier: Tier) -> Unit {
+    Unit::Custom { name: name.to_string(), run: Box::new(move |cx| eng_rec::run(name, tier, cx)) }
 }
 
 pub fn units(prop: &str, tier: Tier) -> Option<Vec<Unit>> {
@@ -289,6 +293,28 @@ pub fn units(prop: &str, tier: Tier) -> Option<Vec<Unit>> {
             }
             v
         }
+        "C11" => {
+            let wm: &dyn Fn(G) -> G = &wrap_memo;
+            let gs = en::k_core().upto(pick(3, 4));
+            let pairs = en::decorated_pairs(&gs, &[wm]);
+            let mut ext: Vec<G> = en::k_ext().upto(3).into_iter().filter(|g| g.size() == 3).collect();
+            ext.extend(en::k02_rep(false).into_iter().step_by(7));
+            ext.extend(en::k02_sep(false).into_iter().step_by(31));
+            let pairs2 = en::decorated_pairs(&ext, &[wm]);
+            vec![
+                e1("kcore-memoized-pairs", format!("every Kcore grammar with <= {} nodes x every non-empty subset of nodes wrapped in memoized(), vs the plain grammar", pick(3, 4)), pairs)
+                    .probes(NOPROBE)
+                    .pairs(PairMode::Exact)
+                    .unit(),
+                e1("kext-k02-memoized-pairs", "extended-class grammars with 3 nodes and a stride sample of the K02 templates x every non-empty subset of nodes wrapped in memoized(), vs the plain grammar".into(), pairs2)
+                    .alpha(&ABCOMMA, 4)
+                    .probes(NOPROBE)
+                    .pairs(PairMode::Exact)
+                    .unit(),
+                rec_unit("leftrec", tier),
+            ]
+        }
+        "C12" => vec![rec_unit("rec-templates", tier), rec_unit("rec-lifecycle", tier), rec_unit("rec-depth", tier), rec_unit("rec-define-twice", tier)],
         "C14" => eng_text::units(tier)
             .into_iter()
             .map(|u| Unit::Custom { name: u.name.clone(), run: Box::new(move |cx| eng_text::run_unit(&u, cx)) })
